@@ -449,11 +449,12 @@ fn scenarios(tier: Tier) -> Vec<Scenario> {
     }
     // a value of the "large file" size class, and the instance built with its background tasks
     v.push(mk("diskbg", "put:k:a", "put:k:L"));
+    v.push(mk("disk", "put:k:a", "put:k:L"));
     if tier == Tier::Thorough {
         v.push(mk("diskbg", "", "put:k:L"));
         v.push(mk("diskbg", "put:k:L", "put:k:b"));
         v.push(mk("diskbg", "put:k:a", "put:k:b"));
-        v.push(mk("disk", "put:k:a", "put:k:L"));
+        v.push(mk("disk", "put:k:L", "put:k:b"));
     }
     v
 }
